@@ -1067,8 +1067,9 @@ impl Walrus {
                     initial_trim = 0; // Only for first entry
                 }
 
-                // Add to results
-                if !final_data.is_empty() {
+                // Add to results (an entry whose payload was appended empty is still an entry;
+                // only a payload emptied by offset trimming is dropped)
+                if !final_data.is_empty() || data_size == 0 {
                     // Extract topic_id and chunk_idx from the payload prefix for logging
                     if final_data.len() >= 9 {
                         let t_idx = final_data[0];
